@@ -9,7 +9,7 @@ Does not decide: value-level behaviour (runs, dictionary overflow, seek arithmet
 import re
 
 from mir import pl_fields, operand_places
-from tmpl import site, suffix, fate, local_defs
+from tmpl import site, suffix, fate, local_defs, origin_locals
 
 COL = 'storage::secondary::column::'
 BLOCKTYPE = 'risinglight_proto::rowset::block_index::BlockType'
@@ -166,6 +166,37 @@ def run(ctx):
 
     fake_iter_rule(ctx, prog)
     rle_runs_rule(ctx, prog)
+    char_cell_rule(ctx, prog)
+
+
+def char_cell_rule(ctx, prog):
+    """C06-R8: a CHAR(n) cell is n bytes"""
+    R8 = 'C06-R8'
+    ctx.rule(R8, 'fixed-width CHAR(n) values are stored in cells of n bytes padded with NUL; the reader looks for the padding inside ONE cell: '
+                 'in PlainCharBlockIterator::next_batch_non_null the slice that is searched for the first NUL is cut to `char_width` bytes '
+                 '(an Index with a range built from the char_width field); searching the rest of the block glues a full-width value to the '
+                 'values that follow it')
+    b = next((x for n, x in prog.bodies.items() if 'char_block_iterator::PlainCharBlockIterator' in n and n.endswith('next_batch_non_null')), None)
+    if not ctx.anchor(R8, 'PlainCharBlockIterator::next_batch_non_null', b is not None):
+        return
+    ctx.functions_analysed.add(b.name)
+    search = [c for c in b.calls if re.search(r'Itertools::find_position$|Iterator::position$|memchr', c.fn or '')]
+    if not ctx.anchor(R8, 'next_batch_non_null: search for the NUL padding', search):
+        return
+    for c in search:
+        src = origin_locals(b, c.args[0]['pl']['l'], depth=8) if c.args and c.args[0]['k'] != 'const' else set()
+        cuts = [k for k in b.calls if (k.fn or '').endswith('ops::Index::index') and k.dest['l'] in src and len(k.args) > 1 and k.args[1]['k'] != 'const'
+                and re.search(r'^std::ops::Range(To|ToInclusive)?<', b.local_ty(k.args[1]['pl']['l']))]
+        bounded = False
+        for k in cuts:
+            for l in origin_locals(b, k.args[1]['pl']['l'], depth=6):
+                for bb, kind, payload in local_defs(b, l):
+                    if kind == 'assign' and any(f.endswith('PlainCharBlockIterator::char_width') for pl in operand_places(payload) for f in pl_fields(pl)):
+                        bounded = True
+        ctx.ob(R8, 'PlainCharBlockIterator·nul-search-bounded-by-the-cell', bounded,
+               f'the NUL search at block {c.bb} runs over a slice cut by {[k.bb for k in cuts]}; bounded by char_width: {bounded}', [site(b, c.bb)],
+               what='PlainCharBlockIterator searches the padding NUL beyond the end of the cell: a CHAR(n) value of exactly n bytes reads back '
+                    'glued to the following values (`abcd`,`wxyz`,`q` -> `abcdwxyzq`)')
 
 
 def rle_runs_rule(ctx, prog):
